@@ -13,6 +13,12 @@
 // sender state, in particular in DataSent after `forget_sent_state()` (0-RTT rejected) —; fresh
 // data is limited by the flow limit, a retransmission is not; the range never leaves the peer's
 // stream window; FIN iff the frame ends at the final size.
+// Two variants of every harness:
+//   *_real_*  the REAL `SendBuf::pick_up` runs on a small symbolic colour map (composite; expensive);
+//   others    `SendBuf::pick_up` is replaced by its CONTRACT STUB (c11s_sndbuf.rs: any result the
+//             contract C09 proves for the real function allows, recorded); decided is what the
+//             Sender / Outgoing layer adds: range, payload and the is_fresh flag are passed through
+//             UNCHANGED in every sender state, FIN / bare-FIN logic, state transitions.
 // `DataStreams::try_load_data_into_once` charges `if is_fresh { data_len } else { 0 }`
 // (checked on the real function in c11s_streams.rs): with the clauses above that is exactly the
 // number of never-sent bytes in the frame.
@@ -73,14 +79,23 @@ fn tx_handle() -> ArcSendWakers {
     }
 }
 
-fn any_sid() -> StreamId {
-    let id: u64 = kani::any();
-    kani::assume(id < (1u64 << 60));
-    StreamId::new(
-        if kani::any() { Role::Client } else { Role::Server },
-        if kani::any() { Dir::Bi } else { Dir::Uni },
-        id,
-    )
+/// (the stream id plays no role in flow control; it only shifts the space predicate)
+fn the_sid() -> StreamId {
+    StreamId::new(Role::Client, Dir::Bi, 1)
+}
+
+/// Expected outcome of the buffer-level pick-up: from the independent oracle on the pre-state
+/// (REAL) or from what the contract stub returned (read AFTER the call).
+fn expected<const REAL: bool, const NS: usize>(
+    pre: (u8, u64, u64, bool),
+) -> (u8, u64, u64, bool) {
+    if REAL {
+        pre
+    } else {
+        let (k, start, end, fresh, calls) = SB::c11s_stub_record();
+        assert!(calls == 1, "the buffer is asked exactly once");
+        if k == 1 { (0, start, end, fresh) } else { (2, 0, 0, false) }
+    }
 }
 
 fn any_allow() -> Option<usize> {
@@ -160,7 +175,7 @@ fn check_offered(
 // ------------------------------------------------------------------------------------------------
 // Sending
 
-fn sending_pick<const NS: usize, const NC: usize>() {
+fn sending_pick<const REAL: bool, const NS: usize, const NC: usize>() {
     let (sndbuf, offs, cols) = SB::c11s_any::<NS, NC>();
     let written = sndbuf.written();
     let max_data = sndbuf.max_data();
@@ -169,7 +184,7 @@ fn sending_pick<const NS: usize, const NC: usize>() {
     assert!(sndbuf.sent() == sent);
     let shutdown: bool = kani::any();
     let mut s = SendingSender {
-        stream_id: any_sid(),
+        stream_id: the_sid(),
         sndbuf,
         flush_waker: None,
         shutdown_waker: if shutdown { Some(waker(2)) } else { None },
@@ -186,15 +201,19 @@ fn sending_pick<const NS: usize, const NC: usize>() {
     let x: u64 = kani::any();
     kani::assume(x < W);
     let before = s.sndbuf.c11s_color_at(x);
-    let (kind, e_start, e_end, e_fresh) = SB::c11s_expect_pick(&offs, &cols, size, flow_limit, &pred);
+    let pre = SB::c11s_expect_pick(&offs, &cols, size, flow_limit, &pred);
 
     let res = s.pick_up(&pred, flow_limit);
+
+    let (kind, e_start, e_end, e_fresh) = expected::<REAL, NS>(pre);
 
     match res {
         Ok((range, fresh, data, eos)) => {
             if range.start < range.end {
                 assert!(kind == 0 && range.start == e_start && range.end == e_end && fresh == e_fresh, "the lowest lost segment / the never-sent suffix, limited by predicate and (if fresh) flow limit");
-                check_offered(&s.sndbuf, x, before, written, max_data, flow_limit, range.start, range.end, fresh);
+                if REAL {
+                    check_offered(&s.sndbuf, x, before, written, max_data, flow_limit, range.start, range.end, fresh);
+                }
                 assert!(data_len::<NC>(&data) == range.end - range.start, "payload length == frame length (the charge is computed from the payload)");
                 assert!(eos == (shutdown && range.end == written), "FIN iff shut down and the frame ends at the final size");
             } else {
@@ -202,7 +221,7 @@ fn sending_pick<const NS: usize, const NC: usize>() {
                 assert!(kind != 0, "a bare FIN only when no data was offered");
                 assert!(eos && !fresh && data.is_empty(), "a bare FIN carries no data and is never charged");
                 assert!(shutdown && range.start == written && sent == written && pred(sent).is_some(), "bare FIN: shut down, every byte sent, room in the packet");
-                assert!(x >= written || s.sndbuf.c11s_color_at(x) == before);
+                assert!(!REAL || x >= written || s.sndbuf.c11s_color_at(x) == before);
             }
             kani::cover!(NS == 0 || (range.start < range.end && fresh), "fresh data offered");
             kani::cover!(NS == 0 || (range.start < range.end && !fresh), "retransmission offered");
@@ -219,24 +238,26 @@ fn sending_pick<const NS: usize, const NC: usize>() {
             if kind == 1 {
                 assert!(signals.contains(Signals::CONGESTION), "predicate refused: CONGESTION signalled");
             }
-            assert!(x >= written || s.sndbuf.c11s_color_at(x) == before, "on Err nothing changed");
-            kani::cover!(NS == 0 || kind == 3, "fresh data blocked by flow_limit == 0");
+            assert!(!REAL || x >= written || s.sndbuf.c11s_color_at(x) == before, "on Err nothing changed");
+            kani::cover!(!REAL || NS == 0 || kind == 3, "fresh data blocked by flow_limit == 0");
         }
     }
-    s.sndbuf.c11s_check_js();
+    if REAL {
+        s.sndbuf.c11s_check_js();
+    }
     core::mem::forget(s);
 }
 
 // ------------------------------------------------------------------------------------------------
 // DataSent
 
-fn data_sent_pick<const NS: usize, const NC: usize>() {
+fn data_sent_pick<const REAL: bool, const NS: usize, const NC: usize>() {
     let (sndbuf, offs, cols) = SB::c11s_any::<NS, NC>();
     let written = sndbuf.written();
     let max_data = sndbuf.max_data();
     let size = sndbuf.c11s_map_size();
     let mut s = DataSentSender {
-        stream_id: any_sid(),
+        stream_id: the_sid(),
         sndbuf,
         flush_waker: None,
         shutdown_waker: if kani::any() { Some(waker(2)) } else { None },
@@ -253,16 +274,20 @@ fn data_sent_pick<const NS: usize, const NC: usize>() {
     let x: u64 = kani::any();
     kani::assume(x < W);
     let before = s.sndbuf.c11s_color_at(x);
-    let (kind, e_start, e_end, e_fresh) = SB::c11s_expect_pick(&offs, &cols, size, flow_limit, &pred);
+    let pre = SB::c11s_expect_pick(&offs, &cols, size, flow_limit, &pred);
 
     let res = s.pick_up(&pred, flow_limit);
+
+    let (kind, e_start, e_end, e_fresh) = expected::<REAL, NS>(pre);
 
     let fin1 = fin_code(&s.fin_state);
     match res {
         Ok((range, fresh, data, eos)) => {
             if range.start < range.end {
                 assert!(kind == 0 && range.start == e_start && range.end == e_end && fresh == e_fresh, "the lowest lost segment / the never-sent suffix, limited by predicate and (if fresh) flow limit");
-                check_offered(&s.sndbuf, x, before, written, max_data, flow_limit, range.start, range.end, fresh);
+                if REAL {
+                    check_offered(&s.sndbuf, x, before, written, max_data, flow_limit, range.start, range.end, fresh);
+                }
                 assert!(data_len::<NC>(&data) == range.end - range.start, "payload length == frame length");
                 assert!(eos == (range.end == written), "every frame that ends at the final size carries FIN");
                 assert!(fin1 == fin0);
@@ -270,7 +295,7 @@ fn data_sent_pick<const NS: usize, const NC: usize>() {
                 assert!(kind != 0, "a bare FIN only when no data was offered");
                 assert!(eos && !fresh && data.is_empty(), "a bare FIN carries no data and is never charged");
                 assert!(fin0 == 1 && fin1 == 0 && range.start == written, "a bare FIN is re-sent only because the FIN was reported lost");
-                assert!(x >= written || s.sndbuf.c11s_color_at(x) == before);
+                assert!(!REAL || x >= written || s.sndbuf.c11s_color_at(x) == before);
             }
             // data re-sent from DataSent after forget_sent_state() (0-RTT rejected) IS fresh
             kani::cover!(NS == 0 || (range.start < range.end && fresh), "DataSent: never-sent data (after a 0-RTT rejection) offered as fresh");
@@ -284,16 +309,19 @@ fn data_sent_pick<const NS: usize, const NC: usize>() {
             if kind == 3 {
                 assert!(signals.contains(Signals::FLOW_CONTROL), "never-sent data blocked by the connection credit: FLOW_CONTROL signalled");
             }
-            assert!(x >= written || s.sndbuf.c11s_color_at(x) == before, "on Err nothing changed");
-            kani::cover!(NS == 0 || kind == 3, "fresh data blocked by flow_limit == 0");
+            assert!(!REAL || x >= written || s.sndbuf.c11s_color_at(x) == before, "on Err nothing changed");
+            kani::cover!(!REAL || NS == 0 || kind == 3, "fresh data blocked by flow_limit == 0");
         }
     }
-    s.sndbuf.c11s_check_js();
+    if REAL {
+        s.sndbuf.c11s_check_js();
+    }
     core::mem::forget(s);
 }
 
 macro_rules! c11s_harness {
-    ($name:ident, $call:expr) => {
+    // composite: the real SendBuf::pick_up
+    (real $name:ident, $call:expr) => {
         #[kani::proof]
         #[kani::unwind(6)]
         #[kani::stub(std::sync::Mutex::lock, stub_mutex_lock)]
@@ -304,18 +332,29 @@ macro_rules! c11s_harness {
             $call;
         }
     };
+    // pass-through: SendBuf::pick_up replaced by its contract stub
+    (stub $name:ident, $call:expr) => {
+        #[kani::proof]
+        #[kani::unwind(6)]
+        #[kani::stub(std::sync::Mutex::lock, stub_mutex_lock)]
+        #[kani::stub(qbase::net::tx::ArcSendWakers::wake_all_by, stub_wake_all_by)]
+        #[kani::stub(alloc::fmt::format, stub_fmt)]
+        #[kani::stub(core::slice::index::slice_index_fail, stub_slice_index_fail)]
+        #[kani::stub(crate::send::sndbuf::SendBuf::pick_up, crate::send::sndbuf::verif_c11s_sndbuf::c11s_stub_pick_up)]
+        fn $name() {
+            $call;
+        }
+    };
 }
 
-c11s_harness!(c11_s_pick_sending_s0c1, sending_pick::<0, 1>());
-c11s_harness!(c11_s_pick_sending_s1c1, sending_pick::<1, 1>());
-c11s_harness!(c11_s_pick_sending_s2c1, sending_pick::<2, 1>());
-c11s_harness!(c11_s_pick_sending_s2c2, sending_pick::<2, 2>());
-c11s_harness!(c11_s_pick_sending_s3c1, sending_pick::<3, 1>());
-c11s_harness!(c11_s_pick_data_sent_s0c1, data_sent_pick::<0, 1>());
-c11s_harness!(c11_s_pick_data_sent_s1c1, data_sent_pick::<1, 1>());
-c11s_harness!(c11_s_pick_data_sent_s2c1, data_sent_pick::<2, 1>());
-c11s_harness!(c11_s_pick_data_sent_s2c2, data_sent_pick::<2, 2>());
-c11s_harness!(c11_s_pick_data_sent_s3c1, data_sent_pick::<3, 1>());
+c11s_harness!(stub c11_s_pick_sending, sending_pick::<false, 1, 1>());
+c11s_harness!(stub c11_s_pick_data_sent, data_sent_pick::<false, 1, 1>());
+c11s_harness!(real c11_s_real_pick_sending_s0c0, sending_pick::<true, 0, 0>());
+c11s_harness!(real c11_s_real_pick_sending_s1c1, sending_pick::<true, 1, 1>());
+c11s_harness!(real c11_s_real_pick_sending_s2c1, sending_pick::<true, 2, 1>());
+c11s_harness!(real c11_s_real_pick_data_sent_s0c0, data_sent_pick::<true, 0, 0>());
+c11s_harness!(real c11_s_real_pick_data_sent_s1c1, data_sent_pick::<true, 1, 1>());
+c11s_harness!(real c11_s_real_pick_data_sent_s2c1, data_sent_pick::<true, 2, 1>());
 
 // ------------------------------------------------------------------------------------------------
 // Through `Outgoing::try_load_data_into`: the STREAM frame that is actually written and the
@@ -443,8 +482,8 @@ impl<TX> ArcSender<TX> {
     }
 }
 
-fn load_step<const KIND: u8, const NS: usize, const NC: usize>() {
-    let sid = any_sid();
+fn load_step<const REAL: bool, const KIND: u8, const NS: usize, const NC: usize>() {
+    let sid = the_sid();
     let (arc, offs, cols, shutdown, fin0) = ArcSender::<C11sBroker>::c11s_any::<KIND, NS, NC>(sid, C11sBroker, tx_handle());
     let (written, max_data, size) = arc.c11s_dims().unwrap();
     let outgoing = Outgoing::new(arc.clone());
@@ -460,10 +499,12 @@ fn load_step<const KIND: u8, const NS: usize, const NC: usize>() {
     kani::assume(x < W);
     let before = arc.c11s_color_at(x);
     let pred = move |o: u64| StreamFrame::estimate_max_capacity(cap, sid, o).map(|c| if tokens < c { tokens } else { c });
-    let (kind, e_start, e_end, e_fresh) = SB::c11s_expect_pick(&offs, &cols, size, flow_limit, &pred);
+    let pre = SB::c11s_expect_pick(&offs, &cols, size, flow_limit, &pred);
     let sent = sent_of(&offs, &cols, size);
 
     let res = outgoing.try_load_data_into(&mut packet, sid, flow_limit, tokens);
+
+    let (kind, e_start, e_end, e_fresh) = expected::<REAL, NS>(pre);
 
     match res {
         Ok((len, is_fresh)) => {
@@ -478,12 +519,14 @@ fn load_step<const KIND: u8, const NS: usize, const NC: usize>() {
                 // the charge DataStreams computes from this pair
                 let charge = if is_fresh { len } else { 0 };
                 assert!(charge <= flow_limit, "C11: the charged bytes never exceed the connection credit");
-                if x < written && x >= start && x < end {
-                    assert!(is_fresh == (before == PENDING), "C11: charged (fresh) exactly when the bytes were never sent before; retransmissions are free");
-                    assert!(is_fresh || before == LOST);
-                    assert!(arc.c11s_color_at(x) == FLIGHT);
-                } else if x < written {
-                    assert!(arc.c11s_color_at(x) == before);
+                if REAL {
+                    if x < written && x >= start && x < end {
+                        assert!(is_fresh == (before == PENDING), "C11: charged (fresh) exactly when the bytes were never sent before; retransmissions are free");
+                        assert!(is_fresh || before == LOST);
+                        assert!(arc.c11s_color_at(x) == FLIGHT);
+                    } else if x < written {
+                        assert!(arc.c11s_color_at(x) == before);
+                    }
                 }
                 assert!(packet.fin == (shutdown && end == written), "FIN iff the frame ends at the final size");
             } else {
@@ -506,7 +549,7 @@ fn load_step<const KIND: u8, const NS: usize, const NC: usize>() {
         Err(_) => {
             assert!(packet.frames == 0 && packet.pos == 0, "nothing written");
             assert!(kind != 0, "offerable data is sent");
-            assert!(x >= written || arc.c11s_color_at(x) == before);
+            assert!(!REAL || x >= written || arc.c11s_color_at(x) == before);
             assert!(arc.c11s_state() == KIND);
         }
     }
@@ -514,7 +557,7 @@ fn load_step<const KIND: u8, const NS: usize, const NC: usize>() {
     core::mem::forget(arc);
 }
 
-c11s_harness!(c11_s_load_sending_s1c1, load_step::<C11S_SENDING, 1, 1>());
-c11s_harness!(c11_s_load_sending_s2c1, load_step::<C11S_SENDING, 2, 1>());
-c11s_harness!(c11_s_load_data_sent_s1c1, load_step::<C11S_DATA_SENT, 1, 1>());
-c11s_harness!(c11_s_load_data_sent_s2c1, load_step::<C11S_DATA_SENT, 2, 1>());
+c11s_harness!(stub c11_s_load_sending, load_step::<false, C11S_SENDING, 1, 1>());
+c11s_harness!(stub c11_s_load_data_sent, load_step::<false, C11S_DATA_SENT, 1, 1>());
+c11s_harness!(real c11_s_real_load_sending_s1c1, load_step::<true, C11S_SENDING, 1, 1>());
+c11s_harness!(real c11_s_real_load_data_sent_s1c1, load_step::<true, C11S_DATA_SENT, 1, 1>());
